@@ -1,6 +1,7 @@
 import Infretis.Lemmas.MovesRat
 import Infretis.Lemmas.MovesMember
 import Infretis.Lemmas.MovesWitness
+import Infretis.Lemmas.MovesWfB
 /-!
 # C09 — accepted paths belong to their ensemble; rejections change nothing
 
@@ -332,5 +333,88 @@ example : (runMd .repaired { exIn with forw := [2, 2, 2] }).toOption.map (fun o 
     unfold runMd
     rw [hs]
     rfl
+
+/-! ### wire fencing (model `Moves.wireFencing`: wire_fencing / extender / subt_acceptance) -/
+
+theorem wf_accept_iff_status_acc (v : Variant) (i : WfIn) (o : WfOut) (h : wireFencing v i = .ok o) :
+    o.accept = true ↔ o.status = .ACC := wf_accept_status v i o h
+
+/-- **Membership of accepted wire-fencing paths.** Assume the ensemble is sane (`l ≤ m`, `cap ≤ r`) and
+    the MD programs of the extender run at least `maxlength` steps (engines run `path.maxlen` steps; the
+    extender ignores the engine's success flag, so this is what makes its `length >= maxlength` test
+    sufficient).  If `wire_fencing` returns `ACC` then the returned path
+    * is a path of the ensemble: first and last frame outside `[l, r)`, every other frame inside `[l, r]`,
+    * starts on the side the start condition demands (`set(start_cond) == {start}`: the move's own assert),
+    * is strictly shorter than `maxlength`,
+    * contains a frame of the wire-fencing region `[m, cap)` (the last accepted shooting point), so it
+      crosses the ensemble's interface `m`,
+    * is a new object (not the old path), `generated = ("wf", 9000, n, len)` with `n ≥ 1` accepted jumps. -/
+theorem wf_acc_member (v : Variant) (i : WfIn) (o : WfOut) (h : wireFencing v i = .ok o) (hs : o.status = .ACC)
+    (hlm : i.l ≤ i.m) (hcr : capOf i ≤ i.r)
+    (hlb : i.maxlength ≤ i.extBack.length) (hlf : i.maxlength ≤ i.extForw.length) :
+    EnsPath i.l i.r o.path ∧
+    (∃ first, o.path.head? = some first ∧
+      ((first ≤ i.l ∧ i.sc.hasL = true ∧ i.sc.hasR = false) ∨ (i.r ≤ first ∧ i.sc.hasL = false ∧ i.sc.hasR = true))) ∧
+    o.path.length < i.maxlength ∧
+    (∃ y ∈ o.path, i.m ≤ y ∧ y < capOf i) ∧
+    o.returnedOld = false ∧ o.oldRewritten = false ∧ 1 ≤ o.genSucc ∧ o.genLen = o.path.length ∧ o.accept = true := by
+  obtain ⟨seg, segTO, succ, draws, t1, to1, t2, to2, first, hj, hsucc, hext, hsub, hlr, hfirst, hsc, ho⟩ :=
+    wf_acc_inv v i o h hs
+  rcases wfJumps_acc v i _ _ _ _ _ _ _ _ _ _ hj with ⟨h1, _⟩ | ⟨_, s, t, j, so, hsh, hacc, hseg⟩
+  · exact absurd h1 hsucc
+  · have hss := (accept_iff_status_acc v _ so hsh).1 hacc
+    obtain ⟨preB, preF, restB, restF, xB, xF, _, _, htr, _, _, hin, hk2, _, _, _, _, _, _, _, _, _, _, _, _, _⟩ :=
+      shoot_acc_member v _ so hsh hss
+    simp only [subShootIn] at hin hk2 htr
+    have hk1 : i.m ≤ j.kick := (hin j.kick (by simp)).1
+    have hseg' : seg = xB :: ((preB.reverse ++ j.kick :: preF) ++ [xF]) := by rw [hseg, htr]; simp
+    rw [hseg'] at hext
+    obtain ⟨hens, hmem, hlen⟩ := extender_member v i xB xF (preB.reverse ++ j.kick :: preF) segTO to1 t1
+      (fun y hy => by have := hin y hy; omega) hlb hlf hext
+    have hkick1 : j.kick ∈ t1 := hmem j.kick (by simp)
+    have hens2 : EnsPath i.l i.r t2 ∧ j.kick ∈ t2 ∧ t2.length = t1.length := by
+      rcases subt_path i t1 to1 _ _ _ _ hsub with h2 | h2
+      · rw [h2]; exact ⟨hens, hkick1, rfl⟩
+      · rw [h2]; exact ⟨hens.reverse, by simpa using hkick1, by simp⟩
+    subst ho
+    refine ⟨hens2.1, ⟨first, hfirst, ?_⟩, by simp only; omega, ⟨j.kick, hens2.2.1, hk1, hk2⟩, rfl, rfl,
+      by simp only; omega, rfl, rfl⟩
+    unfold scIs WF.startPoint at hsc
+    by_cases c1 : first ≤ i.l
+    · left
+      simp only [c1, if_true, Bool.and_eq_true, Bool.not_eq_true'] at hsc
+      exact ⟨c1, hsc.1, hsc.2⟩
+    · by_cases c2 : first ≥ i.r
+      · right
+        simp only [c1, c2, if_false, if_true, Bool.and_eq_true, Bool.not_eq_true'] at hsc
+        exact ⟨c2, hsc.1, hsc.2⟩
+      · simp [c1, c2] at hsc
+
+example : ∃ o, wireFencing .repaired wfEx = .ok o ∧ o.status = .ACC ∧ wfEx.l ≤ wfEx.m ∧ capOf wfEx ≤ wfEx.r ∧
+    wfEx.maxlength ≤ wfEx.extBack.length ∧ wfEx.maxlength ≤ wfEx.extForw.length ∧ o.path = [-1, 0, 1, 2, 3, 5] := by
+  have h := wfEx_eval
+  cases hs : wireFencing .repaired wfEx with
+  | error e => rw [hs] at h; cases h
+  | ok o =>
+    rw [hs] at h; simp only [Except.toOption, Option.some.injEq] at h; subst h
+    exact ⟨_, rfl, rfl, by decide, by decide, by decide, by decide, rfl⟩
+
+/-- **A rejected wire-fencing move never returns changed frames of the old path**: when the old path
+    object itself is returned (status `NSG`) its frames are the old frames; otherwise the returned path is a
+    new object.  (Recorded observation, field `oldRewritten`: after jumps without any accepted segment the
+    code overwrites `.status` and `.generated` of the old path object — frames and files stay intact.) -/
+theorem wf_reject_old_frames (v : Variant) (i : WfIn) (o : WfOut) (h : wireFencing v i = .ok o) :
+    (o.returnedOld = true → o.path = i.old ∧ o.status = .NSG ∧ o.accept = false) ∧
+    (o.oldRewritten = true → o.returnedOld = true ∧ o.genSucc = 0) := by
+  unfold wireFencing at h
+  simp only at h
+  repeat' split at h
+  all_goals first
+    | (cases h; done)
+    | (simp only [Except.ok.injEq] at h; subst h; simp)
+
+example : (wireFencing .repaired { wfEx with jumps := [{ idx := 2, kick := 7, back := [], forw := [] }] }).toOption.map
+    (fun o => (o.returnedOld, o.oldRewritten, o.path, o.status)) = some (true, true, [-1, 1, 2, 1, -1], .NSG) := by
+  rw [wfEx_reject_eval]; rfl
 
 end Infretis.C09
